@@ -64,6 +64,7 @@ type c13Explorer struct {
 	capHit    bool
 	base      string
 	lastDiff  string
+	lastChanged map[string]bool // tasks whose dump line differs in the last rollback mismatch
 }
 
 func sortedJobs(ssn *framework.Session) []*podgroup_info.PodGroupInfo {
@@ -318,6 +319,86 @@ func claimsOf(l string) string {
 	return ""
 }
 
+// claimUndoClass refines the key of a violation that concerns resource claims (and only of those:
+// every other key stays as it was): did the abandoned sequence already un-evict a pod before the
+// final Discard / Rollback (un-evict; pipeline-only allocation of the victim's job, which un-evicts
+// a victim that fits back; rollback across an eviction)? "undo=first" = the very first undo of an
+// eviction restores the wrong claim devices; "undo=after-unevict" = only an eviction that was
+// undone, redone (by undoing the un-eviction) and undone again does.
+func claimUndoClass(diff string, changed map[string]bool, before []c13Op) string {
+	if !strings.Contains(diff, "claim") {
+		return ""
+	}
+	evicted := map[string]bool{}
+	var cps []map[string]bool
+	unevicted := map[string]bool{} // tasks un-evicted at least once before the final undo
+	for _, o := range before {
+		switch o.Kind {
+		case "evict":
+			evicted[o.Arg] = true
+		case "unevict":
+			if evicted[o.Arg] {
+				unevicted[o.Arg] = true
+				delete(evicted, o.Arg)
+			}
+		case "pipejob":
+			for t := range evicted {
+				if strings.HasPrefix(t, o.Arg+"-") {
+					unevicted[t] = true
+					delete(evicted, t)
+				}
+			}
+		case "checkpoint":
+			cps = append(cps, maps.Clone(evicted))
+		case "rollback":
+			if o.CP < len(cps) {
+				for t := range evicted {
+					if !cps[o.CP][t] {
+						unevicted[t] = true
+					}
+				}
+				evicted = maps.Clone(cps[o.CP])
+				cps = cps[:o.CP+1]
+			}
+		}
+	}
+	for t := range unevicted {
+		// (no task line differs, only the claim view: any earlier un-eviction counts)
+		if changed[t] || len(changed) == 0 {
+			return " undo=after-unevict"
+		}
+	}
+	return " undo=first"
+}
+
+// changedTasks: names of the tasks whose "T" line differs between two dumps.
+func changedTasks(a, b string) map[string]bool {
+	lines := func(d string) map[string]string {
+		out := map[string]string{}
+		for _, l := range strings.Split(d, "\n") {
+			if t := strings.TrimSpace(l); strings.HasPrefix(t, "T ") {
+				if f := strings.Fields(t); len(f) > 1 {
+					out[f[1]] = t
+				}
+			}
+		}
+		return out
+	}
+	la, lb := lines(a), lines(b)
+	out := map[string]bool{}
+	for n, l := range la {
+		if lb[n] != l {
+			out[n] = true
+		}
+	}
+	for n := range lb {
+		if _, ok := la[n]; !ok {
+			out[n] = true
+		}
+	}
+	return out
+}
+
 func seqString(seq []c13Op) string {
 	s := make([]string, len(seq))
 	for i, o := range seq {
@@ -361,7 +442,7 @@ func (e *c13Explorer) explore() {
 		for _, op := range prefix {
 			if msg := e.apply(r, op); msg != "" {
 				e.bad[key], e.corrupted = true, true
-				e.viol = append(e.viol, engine.Violation{Property: "C13", Key: "C13/rollback-does-not-restore " + e.lastDiff + " base=" + e.base,
+				e.viol = append(e.viol, engine.Violation{Property: "C13", Key: "C13/rollback-does-not-restore " + e.lastDiff + " base=" + e.base + claimUndoClass(e.lastDiff, e.lastChanged, prefix[:len(prefix)-1]),
 					Message: fmt.Sprintf("base %s, sequence [%s]: %s", e.base, seqString(prefix), msg), Replay: map[string]any{"base": e.base, "sequence": seqString(prefix)}})
 				return
 			}
@@ -374,7 +455,24 @@ func (e *c13Explorer) explore() {
 					evictFree = false
 				}
 			}
-			next = e.enabled(len(r.cps), r.nops, evictFree)
+			// allocated-to-pipelined conversion: issued by the allocate action only, on a fresh statement
+			// that holds nothing but that job's allocation, and followed by Commit alone
+			// (attemptToAllocateJob). The conversion deletes the allocate operations from the statement's
+			// list, so checkpoints and undo records taken before it no longer index what they did: it is
+			// enabled only directly after allocjob(j) as the first operation, and it ends the sequence.
+			convertFor := ""
+			if len(prefix) == 1 && prefix[0].Kind == "allocjob" {
+				convertFor = prefix[0].Arg
+			}
+			afterConvert := len(prefix) > 0 && prefix[len(prefix)-1].Kind == "convert"
+			if !afterConvert {
+				for _, op := range e.enabled(len(r.cps), r.nops, evictFree) {
+					if op.Kind == "convert" && op.Arg != convertFor {
+						continue
+					}
+					next = append(next, op)
+				}
+			}
 		}
 		if !e.verified[key] {
 			e.sequences++
@@ -386,7 +484,7 @@ func (e *c13Explorer) explore() {
 		r.stmt.Discard()
 		if d := sessioncheck.Dump(e.ssn); d != d0 {
 			e.bad[key], e.corrupted = true, true
-			e.viol = append(e.viol, engine.Violation{Property: "C13", Key: "C13/discard-does-not-restore diff=" + diffClass(d0, d) + " base=" + e.base,
+			e.viol = append(e.viol, engine.Violation{Property: "C13", Key: "C13/discard-does-not-restore diff=" + diffClass(d0, d) + " base=" + e.base + claimUndoClass(diffClass(d0, d), changedTasks(d0, d), prefix),
 				Message: fmt.Sprintf("base %s, sequence [%s] then Discard: scheduler view differs from the view before the sequence:\n%s", e.base, seqString(prefix), firstDiff(d0, d)),
 				Replay:  map[string]any{"base": e.base, "sequence": seqString(prefix)}})
 			return
